@@ -7,16 +7,33 @@ Correspondence (model S2T.Patch / S2T.Cache / S2T.AesPatch / S2T.TempScope vs. t
     the whole coarse-turn state graph for k <= 3; random schedules for k = 4, 5); compared per turn:
     kind of event executed / blocked, wrapper depth of the installed function afterwards; at the end:
     depth, depths seen inside the bodies (bodies that raise included).
-  * `_get_round_keys` histories vs. `c15.lru`; `_ttf_get_glyph_features` histories on synthetic TrueType
-    fonts vs. `c15.font`; extraction sequences over generated plain / RC4 / AES-128 / AES-256 / locked PDFs
+  * `_get_round_keys` histories vs. `c15.lru`; `_get_round_keys` called by 2 / 3 real threads under a controlled
+    scheduler (pause before each locked region and at the entry of `_expand_key`; every interleaving for two
+    threads over same / different / cached / failing / evicting keys) vs. `c15.lru_conc` (model S2T.CacheConc),
+    per turn: where the thread stands and the cache order;
+    `_ttf_get_glyph_features` histories on synthetic TrueType fonts — including a COLLISION FAMILY of font
+    programs of equal length and identical table directory that differ in one table each — vs. `c15.font`
+    (glyph ids and WHICH font's analysis answered, read off the units-per-em);
+    extraction sequences over generated plain / RC4 / AES-128 / AES-256 / locked PDFs
     from a pristine pypdf provider vs. `c15.aes`; the 7z generator under exhaust / close / throw consumers
     vs. `c15.temp`.
+  * every call into the library goes through lib_call / guarded: an exception the harness does not expect is an
+    outcome to be judged (Broken -> search -> Violation), never a crash of the machinery.
 Oracle of the property statement itself (always run; independent of the Lean model):
   * every document (fixtures + generated, failing ones included) is extracted alone in a forked child
     (isolated baseline, same hash seed); then random sequences and random preemptive thread workloads
     in-process: each digest must equal the baseline, and afterwards the patched pypdf attributes are the
     originals, every module-level value of the package outside the declared transparent caches is
     unchanged, the private temp root is empty, the fd count, cwd, environ, recursion limit are unchanged;
+  * single calls (`_get_round_keys(key)`, `_ttf_get_glyph_features(font, gids)`) are judged against the same call made
+    alone in a pristine interpreter; round-key calls of two real threads additionally at LINE granularity
+    (A runs i lines, B runs j lines or a burst of evicting misses, then everything drains);
+  * fresh-process sequences: every ordered pair of the generated documents that go through the same cache with
+    different entries (collision-family fonts embedded as CID TrueType fonts whose digits are repaired from the
+    glyph outlines; AES-128 documents) is extracted in a forked child of the still-pristine harness process;
+  * gated whole extractions: thread T1 is held at the entry / exit of every function called under a declared cache
+    (`_expand_key`, the TrueType table readers; from the current source) while T2 extracts the same and a sibling
+    document;
   * search(): interleavings of real sections explored directly (phase granularity exhaustively for
     k <= 3, event granularity depth-first for k = 2, random beyond), font-cache and AES history checks.
 """
@@ -43,7 +60,10 @@ from run import Broken, Violation, Infra
 
 GEN = ["GlobalWrites"]
 RULE = ("patch section: every edge of the model's coarse-turn state graph for k<=3 threads (+random k=4,5), bodies raise at random; "
-        "caches: random key / (font, glyph ids) histories with repeats, evictions and failing keys; AES: all orders of "
+        "caches: random key / (font, glyph ids) histories with repeats, evictions and failing keys, all ordered pairs of a family of "
+        "font programs with equal length and identical table directory; round-key cache: all region-granularity interleavings of two "
+        "threads x 14 key configurations (+random k=3), line-granularity preemption-bounded schedules; gated whole extractions at "
+        "every function under a declared cache; AES: all orders of "
         "generated plain/RC4/AES-128/AES-256/locked PDFs from a pristine provider; sequences / threads: random orders of "
         "fixtures + generated + damaged documents. distinct = distinct (schedule | history | sequence); non-trivial = "
         "at least two sections overlap | a repeated key | a sequence of >= 2 documents")
@@ -51,6 +71,11 @@ ASSUMPTIONS = [
     "threads are preempted only between the observable events of the section (attribute read/write, lock acquire/release); "
     "the silent steps between them touch only _CHAR_MAP_PATCH_USERS under the lock",
     "make_wrapper(f) is a closure over f (wrapper depth is read from __closure__/__wrapped__)",
+    "a region inside `with L:` is atomic with respect to every other region inside `with L:` (the two regions of _get_round_keys "
+    "are single steps of S2T.CacheConc.Fixed; that ALL accesses of the cell are inside such regions is the generated fact "
+    "cache_accesses_locked); single OrderedDict / dict operations are atomic under the GIL",
+    "threads in _get_round_keys are preempted at source-line boundaries at the finest (sys.settrace); 2 threads exhaustively at "
+    "region granularity, preemption-bounded at line granularity",
     "functools.lru_cache and collections.OrderedDict behave as documented (modelled by S2T.Cache.lruGet)",
     "the functions behind the caches (_expand_key, mimetypes.guess_type with an unchanged database, router lookups, "
     "_ttf_parse_font) are pure",
@@ -58,7 +83,8 @@ ASSUMPTIONS = [
     "the AES provider patch is one-way by design of the library (open known finding aes.provider-patch-not-restored)",
     "one patched cell: pypdf < 6.6 (pypdf._page.build_char_map); checked by the theorem inventory_side_conditions",
 ]
-TRUSTED = ["controlled scheduler + attribute/lock instrumentation in harness/props/c15.py",
+TRUSTED = ["controlled schedulers (Controlled for sections, CallCtl for calls) + attribute/lock/gate instrumentation in harness/props/c15.py",
+           "the font / PDF writers of the harness (assemble_ttf, collision_family, make_font_pdf, make_text_pdf)",
            "tools/gen/globalwrites.py (AST inventory of global writes)",
            "CPython threading.Lock, contextlib.contextmanager, try/finally, generator close semantics"]
 
@@ -68,6 +94,49 @@ RES = os.path.join(REPO, "sharepoint2text", "tests", "resources")
 
 def _pe():
     return importlib.import_module("sharepoint2text.parsing.extractors.pdf.pdf_extractor")
+
+
+def _aesmod():
+    return importlib.import_module("sharepoint2text.parsing.extractors.pdf._pypdf_aes_fallback")
+
+
+# =============================================================================================
+#  calls into the library never crash the harness
+# =============================================================================================
+def lib_call(fn, *args, **kw):
+    """('ok', value) | ('err', exception type name): the outcome of one call into the library.  An exception the
+    caller did not expect is an OUTCOME to be judged (Broken / Violation), never a crash of the machinery."""
+    try:
+        return ("ok", fn(*args, **kw))
+    except Exception as e:  # noqa: BLE001
+        return ("err", type(e).__name__)
+
+
+def _from_library(tb):
+    """does the traceback pass through a frame of the library under test (tests excluded)?"""
+    root = os.path.join(os.path.realpath(REPO), "sharepoint2text") + os.sep
+    while tb is not None:
+        fn = os.path.realpath(tb.tb_frame.f_code.co_filename)
+        if fn.startswith(root) and os.sep + "tests" + os.sep not in fn:
+            return True
+        tb = tb.tb_next
+    return False
+
+
+def guarded(part_name, fn, *args):
+    """runs one part of the correspondence / oracles.  An exception that comes out of the library (a frame of the
+    package is on the traceback) means the obligation the part checks no longer checks: it is returned as a Broken
+    so that the failing-input search runs; anything else is a genuine crash of the harness and propagates."""
+    try:
+        return fn(*args), None
+    except Infra:
+        raise
+    except Exception as e:  # noqa: BLE001
+        import traceback
+        if not _from_library(e.__traceback__):
+            raise
+        tail = " | ".join(x.strip() for x in traceback.format_exc().strip().splitlines()[-5:])[:500]
+        return None, Broken("correspondence", part_name, f"the library raised {type(e).__name__}: {e} where the harness expects none @ {tail}")
 
 
 # =============================================================================================
@@ -649,7 +718,10 @@ def corr_lru(ctx):
         cases.append([ctx.rng.randrange(width) for _ in range(n)])
     cases.append([0, 1, 2, 3, 0, 4, 7, 1, 5, 6, 0])
     cases.append([0, 9, 10, 0, 1, 11, 1, 9])
+    cases.append([7, 7, 0, 7])          # a failing key repeated: nothing may be remembered of the failed call
+    cases.append([0, 1, 0, 0, 1, 1, 0])  # immediate repeats ("most recently used" paths)
     outs = ctx.drive([{"op": "c15.lru", "cap": aes._ROUND_KEY_CACHE_MAX, "keys": ks, "bad": bad} for ks in cases])
+    alone = keys_alone()
     saved = list(aes._ROUND_KEY_CACHE.items())
     nbad = 0
     for ks, mo in zip(cases, outs):
@@ -658,17 +730,15 @@ def corr_lru(ctx):
         ctx.count("lru/" + ("evicting" if len(set(k for k in ks if k not in bad)) > aes._ROUND_KEY_CACHE_MAX else "fits"))
         for i, (kid, st) in enumerate(zip(ks, mo["steps"])):
             key = pool[kid]
-            try:
-                got = aes._get_round_keys(key)
-                res = "ok"
-            except ValueError:
-                got, res = None, "err"
-            order = [inv.get(k, "unknown-key:" + bytes(k).hex()[:12]) for k in aes._ROUND_KEY_CACHE.keys()]
-            # oracle: transparency — the cached answer is what the uncached function gives
-            if res == "ok" and got != aes._expand_key(key):
+            out = lib_call(aes._get_round_keys, key)
+            res = "ok" if out[0] == "ok" else "err"
+            order = [inv.get(k, "unknown-key:" + bytes(k).hex()[:12]) for k in list(aes._ROUND_KEY_CACHE.keys())]
+            # oracle: transparency — the cached answer is what the call gives alone in a pristine process
+            want = alone[kid]
+            if _norm_rk(out) != want and not violations:
                 violations.append(Violation("cache.round-keys-not-transparent",
                                             f"_get_round_keys(bytes.fromhex('{key.hex()}')) after the history of keys {[pool[x].hex() for x in ks[:i]]} "
-                                            f"differs from _expand_key of the same key",
+                                            f"gives {_show_rk(_norm_rk(out))}, alone in a fresh process {_show_rk(want)}",
                                             {"kind": "lru", "keys": ks[: i + 1]}))
             mres = "err" if st["res"] == "err" else "ok"
             if res != mres or order != st["order"]:
@@ -682,50 +752,134 @@ def corr_lru(ctx):
     return broken, violations
 
 
-def make_ttf(n_glyphs, salt=0, loc_format=1):
+def make_ttf(n_glyphs, salt=0, loc_format=1, upem=2048):
     """minimal TrueType font: head, maxp, loca, glyf with distinct bounding boxes per glyph"""
     glyphs = [struct.pack(">hhhhh", 1, 0, 0, 100 * (i + 1) + salt, 200 * (i + 1) + salt) + b"\0\0" for i in range(n_glyphs)]
+    return assemble_ttf(glyphs, upem=upem, loc_format=loc_format)
+
+
+def assemble_ttf(glyphs, upem=2048, loc_format=1, num_glyphs=None, checksum=0, order=("head", "maxp", "loca", "glyf")):
+    """TrueType font program from glyph records (each starts with the 10-byte glyph header).  The table directory
+    (tags, checksums, offsets, lengths) depends only on the NUMBER and SIZES of the records and on `checksum` —
+    fonts assembled from records of the same sizes have equal length and identical directories whatever their
+    head / maxp / loca / glyf CONTENTS are."""
     glyf = b"".join(glyphs)
+    offs = [0]
+    for g in glyphs:
+        offs.append(offs[-1] + len(g))
     if loc_format == 1:
-        loca = b"".join(struct.pack(">I", 12 * i) for i in range(n_glyphs + 1))
+        loca = b"".join(struct.pack(">I", o) for o in offs)
     else:
-        loca = b"".join(struct.pack(">H", 6 * i) for i in range(n_glyphs + 1))
+        loca = b"".join(struct.pack(">H", o // 2) for o in offs)
+    loca = loca.ljust(4 * len(offs), b"\0")          # same table length for both formats
     head = bytearray(54)
-    head[18:20] = struct.pack(">H", 2048)
+    head[18:20] = struct.pack(">H", upem)
     head[50:52] = struct.pack(">h", loc_format)
-    maxp = struct.pack(">IH", 0x10000, n_glyphs)
-    tabs = [(b"head", bytes(head)), (b"maxp", maxp), (b"loca", loca), (b"glyf", glyf)]
+    maxp = struct.pack(">IH", 0x10000, len(glyphs) if num_glyphs is None else num_glyphs)
+    content = {"head": bytes(head), "maxp": maxp, "loca": loca, "glyf": glyf}
+    tabs = [(t.encode(), content[t]) for t in order]
     off = 12 + 16 * len(tabs)
     d = body = b""
     for t, c in tabs:
-        d += struct.pack(">4sIII", t, 0, off + len(body), len(c))
+        d += struct.pack(">4sIII", t, checksum, off + len(body), len(c))
         body += c
     return struct.pack(">IHHHH", 0x10000, len(tabs), 0, 0, 0) + d + body
 
 
+def _grec(w, h, size=12, filler=b""):
+    rec = struct.pack(">hhhhh", 1, 0, 0, w, h) + filler
+    return rec.ljust(size, b"\0")
+
+
+# bounding boxes (width, height) of the digits 1, 4, 7 of the library's reference font (2048 units per em)
+_D1, _D4, _D7 = (540, 1472), (1014, 1466), (949, 1447)
+
+
+def collision_family():
+    """font programs of EQUAL LENGTH with IDENTICAL offset table + table directory that differ in the contents of
+    exactly one table (or in the layout of loca + glyf).  Any cache key that looks at less than the whole font
+    program (its length, its directory, a prefix, one table, a sample of bytes) makes two members collide, and
+    every member is analysed differently from the base — so a history 'member A, then member B' exposes the key."""
+    sizes = (12, 12, 24, 12)
+    base = [_grec(0, 0), _grec(*_D1), _grec(*_D4, size=24), _grec(*_D7)]
+    fam = {
+        "base": assemble_ttf(base),
+        # glyphs stored at other positions (loca and glyf differ): 7 (24 bytes, its outline bytes look like a glyph header), 1, 4
+        "layout": assemble_ttf([_grec(0, 0), _grec(*_D7, size=24, filler=b"\0\0" + struct.pack(">hhhhh", 1, 0, 0, *_D4)), _grec(*_D1), _grec(*_D4)]),
+        "head-upem": assemble_ttf(base, upem=1024),                       # only head differs (units per em)
+        "head-locfmt": assemble_ttf(base, loc_format=0),                  # head and loca differ (short offsets)
+        "maxp": assemble_ttf(base, num_glyphs=3),                         # only maxp differs (glyph 3 out of range)
+        "glyf": assemble_ttf([base[0], _grec(*_D7), _grec(*_D1, size=24), _grec(*_D4)]),    # only glyf differs
+        "glyf-tail": assemble_ttf(base[:3] + [_grec(971, 1472)]),         # only the last 12 bytes of the program differ
+    }
+    assert len({len(f) for f in fam.values()}) == 1 and len({f[:12 + 16 * 4] for f in fam.values()}) == 1
+    assert sizes == tuple(len(g) for g in base)
+    return fam
+
+
+_FONTS = {}
+FAMILY_IDS = {}
+
+
 def _fonts():
-    return {0: make_ttf(4), 1: make_ttf(6, salt=7), 2: make_ttf(5, loc_format=0), 3: b"\0" * 8, 4: make_ttf(3, salt=1)[:-20]}
+    """font pool of the cache correspondence: 0–2 well-formed fonts that differ in size and directory, 3–4 damaged,
+    5.. the collision family (equal length, identical directory)"""
+    if not _FONTS:
+        _FONTS.update({0: make_ttf(4, upem=1000), 1: make_ttf(6, salt=7, upem=1100), 2: make_ttf(5, loc_format=0, upem=1200),
+                       3: b"\0" * 8, 4: make_ttf(3, salt=1)[:-20]})
+        for i, (name, f) in enumerate(collision_family().items()):
+            _FONTS[5 + i] = f
+            FAMILY_IDS[name] = 5 + i
+    return _FONTS
+
+
+def _font_name(f):
+    _fonts()
+    fam = {i: n for n, i in FAMILY_IDS.items()}
+    return f"font#{f}" + (f"[{len(_FONTS[f])} bytes, family member '{fam[f]}']" if f in fam else f"[{len(_FONTS[f])} bytes]")
+
+
+def _nglyph():
+    return {0: 4, 1: 6, 2: 5, 3: 0, 4: 3, **{i: (3 if n == 'maxp' else 4) for n, i in FAMILY_IDS.items()}}
 
 
 def _font_call(pe, font, gids):
-    r = pe._ttf_get_glyph_features(font, list(gids))
-    return None if r is None else (r[0], dict(r[1]))
+    """outcome of one real call, normalised: None | [units per em, sorted [gid, [w, h]]] | 'ERR:<exception>'"""
+    out = lib_call(pe._ttf_get_glyph_features, font, list(gids))
+    if out[0] == "err":
+        return "ERR:" + out[1]
+    r = out[1]
+    try:
+        return None if r is None else [r[0], sorted([k, list(v)] for k, v in r[1].items())]
+    except Exception as e:  # noqa: BLE001 - a result of another shape is an outcome too
+        return "SHAPE:" + type(e).__name__
 
 
-_FONT_ALONE = {}
-_FONT_SCRIPT = r"""
+# ---- results of single calls made alone in a pristine interpreter (one fresh process, one fork per call):
+#      independent of every cache and of every other module-level state the library may keep, known to this
+#      harness or not
+_ALONE = {}
+_ALONE_SCRIPT = r"""
 import sys, json, os
 sys.path.insert(0, sys.argv[1])
 import logging; logging.disable(logging.CRITICAL)
 from sharepoint2text.parsing.extractors.pdf import pdf_extractor as pe
+from sharepoint2text.parsing.extractors.pdf import _pypdf_aes_fallback as aes
 out = []
-for font_hex, gids in json.load(sys.stdin):
+for req in json.load(sys.stdin):
     r, w = os.pipe()
     pid = os.fork()
     if pid == 0:
         try:
-            res = pe._ttf_get_glyph_features(bytes.fromhex(font_hex), list(gids))
-            os.write(w, json.dumps(None if res is None else [res[0], sorted([k, list(v)] for k, v in res[1].items())]).encode())
+            try:
+                if req[0] == "font":
+                    res = pe._ttf_get_glyph_features(bytes.fromhex(req[1]), list(req[2]))
+                    ans = None if res is None else [res[0], sorted([k, list(v)] for k, v in res[1].items())]
+                else:
+                    ans = ["ok", [bytes(x).hex() for x in aes._get_round_keys(bytes.fromhex(req[1]))]]
+            except Exception as e:
+                ans = "ERR:" + type(e).__name__ if req[0] == "font" else ["err", type(e).__name__]
+            os.write(w, json.dumps(ans).encode())
         finally:
             os._exit(0)
     os.close(w)
@@ -742,24 +896,53 @@ print(json.dumps(out))
 """
 
 
-def _norm_font(res):
-    return None if res is None else [res[0], sorted([k, list(v)] for k, v in res[1].items())]
+def _alone(reqs):
+    """reqs: list of ('font', font id, gids) | ('key', key id); fills _ALONE"""
+    import subprocess
+    fonts = _fonts()
+    pool, _bad = _keys_pool()
+    need = sorted(set(reqs) - set(_ALONE))
+    if need:
+        payload = [["font", fonts[r[1]].hex(), list(r[2])] if r[0] == "font" else ["key", pool[r[1]].hex()] for r in need]
+        p = subprocess.run([sys.executable, "-c", _ALONE_SCRIPT, REPO], input=json.dumps(payload).encode(), capture_output=True, timeout=300)
+        if p.returncode != 0:
+            raise Infra("isolated evaluation failed: " + p.stderr.decode()[-400:])
+        for key, res in zip(need, json.loads(p.stdout.decode().strip().splitlines()[-1])):
+            _ALONE[key] = res
 
 
 def font_alone(calls):
-    """{(font id, gids): result} of each call made alone in a pristine interpreter (one fresh process, one fork per call):
-    independent of every cache the library may keep, known to this harness or not"""
-    import subprocess
-    fonts = _fonts()
-    need = sorted({(f, tuple(g)) for f, g in calls} - set(_FONT_ALONE))
-    if need:
-        p = subprocess.run([sys.executable, "-c", _FONT_SCRIPT, REPO], input=json.dumps([[fonts[f].hex(), list(g)] for f, g in need]).encode(),
-                           capture_output=True, timeout=300)
-        if p.returncode != 0:
-            raise Infra("isolated font evaluation failed: " + p.stderr.decode()[-400:])
-        for key, res in zip(need, json.loads(p.stdout.decode().strip().splitlines()[-1])):
-            _FONT_ALONE[key] = res
-    return {(f, tuple(g)): _FONT_ALONE[(f, tuple(g))] for f, g in calls}
+    """{(font id, gids): result} of each call made alone in a pristine interpreter"""
+    reqs = [("font", f, tuple(g)) for f, g in calls]
+    _alone(reqs)
+    return {(f, tuple(g)): _ALONE[("font", f, tuple(g))] for f, g in calls}
+
+
+def keys_alone():
+    """{key id: ['ok', [round keys as hex]] | ['err', exception]} of _get_round_keys(key) alone in a pristine interpreter"""
+    pool, _bad = _keys_pool()
+    _alone([("key", k) for k in pool])
+    return {k: _ALONE[("key", k)] for k in pool}
+
+
+def _norm_rk(out):
+    """normal form of a lib_call outcome of _get_round_keys"""
+    if out[0] == "err":
+        return ["err", out[1]]
+    try:
+        return ["ok", [bytes(x).hex() for x in out[1]]]
+    except Exception as e:  # noqa: BLE001
+        return ["shape", type(e).__name__]
+
+
+def _show_rk(n):
+    if n[0] != "ok":
+        return f"{n[0]}:{n[1]}"
+    return f"a schedule of {len(n[1])} round keys" + (f" starting {n[1][0][:16]}… ending {n[1][-1][:16]}…" if n[1] else "")
+
+
+def _norm_font(res):
+    return res
 
 
 def check_font_history(calls):
@@ -774,50 +957,67 @@ def check_font_history(calls):
             got = _norm_font(_font_call(pe, fonts[f], gids))
             want = alone[(f, tuple(gids))]
             if got != want:
-                return False, (f"_ttf_get_glyph_features(font#{f}, {list(gids)}) after history {[(a, list(b)) for a, b in calls[:i]]} returned {got}, "
-                               f"alone in a fresh process it returns {want}")
+                return False, (f"_ttf_get_glyph_features({_font_name(f)}, {list(gids)}) after the history {[(_font_name(a), list(b)) for a, b in calls[:i]]} "
+                               f"returned {got}, alone in a fresh process it returns {want}")
         return True, "every call equals its isolated result"
     finally:
         pe._FONT_CACHE.clear()
         pe._FONT_CACHE.update(saved)
 
 
+def _family_histories():
+    """always-on: every ordered pair of members of the collision family, asked for all their glyphs"""
+    _fonts()
+    ids = sorted(FAMILY_IDS.values())
+    ng = _nglyph()
+    return [[(a, list(range(ng[a]))), (b, list(range(ng[b])))] for a in ids for b in ids if a != b]
+
+
 def _font_histories(ctx, n):
-    nglyph = {0: 4, 1: 6, 2: 5, 3: 0, 4: 3}
+    _fonts()
+    nglyph = _nglyph()
+    fam = sorted(FAMILY_IDS.values())
     cases = []
     for _ in range(n):
         calls = []
+        pool = (0, 0, 1, 2) if ctx.rng.random() < 0.5 else tuple(fam) + (0,)
         for _ in range(ctx.rng.randrange(1, 7)):
-            f = ctx.rng.choice((0, 0, 1, 2))
+            f = ctx.rng.choice(pool)
             gids = sorted(ctx.rng.sample(range(nglyph[f]), ctx.rng.randrange(0, nglyph[f] + 1)))
             calls.append((f, gids))
         cases.append(calls)
     cases.append([(0, [0]), (0, [1, 2]), (1, [5]), (0, [0, 3])])
     cases.append([(2, [1]), (2, [2]), (2, [1])])
-    return cases
+    return cases + _family_histories()
 
 
 def corr_font(ctx):
     pe = _pe()
     fonts = _fonts()
     broken, violations = [], []
-    cases = _font_histories(ctx, ctx.n(40, 500))
-    font_alone([c for calls in cases for c in calls])          # one pristine process for all distinct calls
+    cases = _STATE.pop("font_cases", None) or _font_histories(ctx, ctx.n(40, 500))
+    alone = font_alone([c for calls in cases for c in calls] + [(f, []) for f in fonts])     # one pristine process for all distinct calls
+    # which fonts answer with which units-per-em when analysed alone (members of the family share theirs by construction)
+    upem_of = {f: (alone[(f, ())][0] if isinstance(alone[(f, ())], list) else None) for f in fonts}
     outs = ctx.drive([{"op": "c15.font", "calls": [{"font": f, "gids": g} for f, g in calls]} for calls in cases])
     saved = dict(pe._FONT_CACHE)
     nbad = 0
     for calls, mo in zip(cases, outs):
         pe._FONT_CACHE.clear()
-        ctx.case(("font", tuple((f, tuple(g)) for f, g in calls)), nontrivial=len({f for f, _ in calls}) < len(calls))
-        ctx.count("font/" + ("repeated-font" if len({f for f, _ in calls}) < len(calls) else "distinct-fonts"))
-        for i, ((f, gids), want) in enumerate(zip(calls, mo["results"])):
+        fam = any(f in FAMILY_IDS.values() for f, _ in calls)
+        ctx.case(("font", tuple((f, tuple(g)) for f, g in calls)), nontrivial=len({f for f, _ in calls}) < len(calls) or fam)
+        ctx.count("font/" + ("equal-length-and-directory" if fam and len({f for f, _ in calls}) > 1 else
+                             "repeated-font" if len({f for f, _ in calls}) < len(calls) else "distinct-fonts"))
+        for i, ((f, gids), want, wparsed) in enumerate(zip(calls, mo["results"], mo["parsed"])):
             got = _font_call(pe, fonts[f], gids)
-            keys = None if got is None else list(got[1].keys())
-            if keys != want:
+            keys = [k for k, _ in got[1]] if isinstance(got, list) else got
+            parsed_ok = isinstance(got, list) and got[0] == upem_of.get(wparsed)
+            if keys != want or not parsed_ok:
                 nbad += 1
                 if nbad <= 5:
-                    broken.append(Broken("correspondence", "c15.font", f"call {i}: real glyph ids {keys} model {want}",
-                                         case={"calls": [[f, g] for f, g in calls]}))
+                    broken.append(Broken("correspondence", "c15.font",
+                                         f"call {i}: real glyph ids {keys} units-per-em {got[0] if isinstance(got, list) else None}; model glyph ids {want} "
+                                         f"analysis of font#{wparsed} (units-per-em {upem_of.get(wparsed)})", case={"calls": [[f, g] for f, g in calls]}))
                 break
         ok, what = check_font_history(calls)                     # the statement itself, against the pristine process
         if not ok and not violations:
@@ -861,6 +1061,377 @@ def corr_lru_decorated(ctx):
     if r1 != r2:
         violations.append(Violation("cache.type-registry-unstable", "two calls of _get_type_registry differ", {"kind": "registry"}))
     return violations
+
+
+# =============================================================================================
+#  controlled scheduler for concurrent CALLS of one library function (shared memo caches)
+# =============================================================================================
+class CallCtl:
+    """k real threads, thread t performs the calls `calls[t]` (a list of argument tuples) of `mod.<fn_name>` one after
+    the other.  A thread pauses (and hands control back) before every acquire of a module-level lock of `mod`
+    ('acq'), at the entry ('gate:<g>') and the exit ('ret:<g>') of every function of `mod` named in `gates`, and
+    with lines=True before every source line of the function under test ('line').  `turn(t)` lets thread t execute
+    its pending event and run to its next one."""
+
+    TIMEOUT = 8.0
+
+    def __init__(self, mod, fn_name, calls, gates=(), lines=False, ret_gates=False):
+        self.mod, self.fn_name, self.calls = mod, fn_name, [list(c) for c in calls]
+        self.k = len(calls)
+        self.gates, self.lines, self.ret_gates = list(gates), lines, ret_gates
+        f = getattr(mod, fn_name)
+        self.code = getattr(getattr(f, "__wrapped__", f), "__code__", None)
+        self.go = [threading.Semaphore(0) for _ in range(self.k)]
+        self.arrived = [threading.Semaphore(0) for _ in range(self.k)]
+        self.pending = [None] * self.k
+        self.blocked = [False] * self.k
+        self.finished = [False] * self.k
+        self.results = [[] for _ in range(self.k)]
+        self.tls = threading.local()
+        self.free = False
+        self.threads = []
+        self._saved = []
+
+    def tid(self):
+        return getattr(self.tls, "tid", None)
+
+    def event(self, kind):
+        t = self.tid()
+        if t is None or self.free:
+            return
+        self.pending[t] = kind
+        self.arrived[t].release()
+        self.go[t].acquire()
+
+    def _instrument(self):
+        ctl = self
+        lock_types = (type(threading.Lock()), type(threading.RLock()))
+        for name, val in list(vars(self.mod).items()):
+            if isinstance(val, lock_types):
+                self._saved.append((name, val))
+                setattr(self.mod, name, _AcqProxy(val, self))
+        for g in self.gates:
+            orig = getattr(self.mod, g, None)
+            if not callable(orig):
+                continue
+            self._saved.append((g, orig))
+
+            def mk(g, orig):
+                def gated(*a, **kw):
+                    ctl.event("gate:" + g)
+                    try:
+                        return orig(*a, **kw)
+                    finally:
+                        if ctl.ret_gates:
+                            ctl.event("ret:" + g)
+                gated.__wrapped__ = orig
+                return gated
+            setattr(self.mod, g, mk(g, orig))
+
+    def _restore(self):
+        for name, val in reversed(self._saved):
+            setattr(self.mod, name, val)
+        self._saved = []
+
+    def _tracer(self, frame, event, arg):
+        return self._local if frame.f_code is self.code else None
+
+    def _local(self, frame, event, arg):
+        if event == "line":
+            self.event("line")
+        return self._local
+
+    def _worker(self, t):
+        self.tls.tid = t
+        self.event("start")
+        if self.lines and self.code is not None:
+            sys.settrace(self._tracer)
+        try:
+            for args in self.calls[t]:
+                self.results[t].append(lib_call(getattr(self.mod, self.fn_name), *args))
+        finally:
+            sys.settrace(None)
+            self.finished[t] = True
+            self.arrived[t].release()
+
+    def start(self):
+        self._instrument()
+        for t in range(self.k):
+            th = threading.Thread(target=self._worker, args=(t,), daemon=True)
+            self.threads.append(th)
+            th.start()
+        for t in range(self.k):
+            self._wait(t)
+        for t in range(self.k):     # consume the 'start' events: every thread now stands before its first real event
+            self.go[t].release()
+            self._wait(t)
+
+    def _wait(self, t):
+        if not self.arrived[t].acquire(timeout=self.TIMEOUT):
+            raise Stuck(f"thread {t} did not reach its next event within {self.TIMEOUT}s")
+
+    def state(self, t):
+        return "done" if self.finished[t] else self.pending[t]
+
+    def turn(self, t):
+        """state of thread t after the turn: 'done' | 'blocked' | the event it is paused before"""
+        if t >= self.k or self.finished[t]:
+            return "done"
+        self.blocked[t] = False
+        self.go[t].release()
+        self._wait(t)
+        if self.blocked[t]:
+            return "blocked"
+        return self.state(t)
+
+    def all_done(self):
+        return all(self.finished)
+
+    def enabled(self):
+        return [t for t in range(self.k) if not self.finished[t]]
+
+    def drain(self, problems, limit=2000):
+        """lowest unfinished thread first until everything is finished"""
+        for _ in range(limit):
+            if self.all_done():
+                return
+            progressed = False
+            for t in self.enabled():
+                if self.turn(t) != "blocked":
+                    progressed = True
+                    break
+            if not progressed:
+                problems.append("deadlock: every unfinished thread is blocked on a lock")
+                return
+
+    def finish(self):
+        self.free = True
+        for t in range(self.k):
+            if not self.finished[t]:
+                self.go[t].release()
+        for th in self.threads:
+            th.join(timeout=self.TIMEOUT)
+        alive = [i for i, th in enumerate(self.threads) if th.is_alive()]
+        self._restore()
+        return alive
+
+
+class _AcqProxy:
+    """a lock whose acquire is a pause point (release is not: a thread is never paused by the proxy itself while it
+    holds the lock; with line events it can be, and the others then report 'blocked')"""
+
+    def __init__(self, inner, ctl):
+        self.inner, self.ctl = inner, ctl
+
+    def acquire(self, blocking=True, timeout=-1):
+        t = self.ctl.tid()
+        if t is None:
+            return self.inner.acquire(blocking, timeout)
+        while True:
+            if self.ctl.free:
+                return self.inner.acquire(blocking, timeout)
+            self.ctl.event("acq")
+            if self.ctl.free:
+                return self.inner.acquire(blocking, timeout)
+            if self.inner.acquire(False):
+                return True
+            self.ctl.blocked[t] = True
+
+    def release(self):
+        self.inner.release()
+
+    def __enter__(self):
+        self.acquire()
+        return self
+
+    def __exit__(self, *a):
+        self.release()
+        return False
+
+    def locked(self):
+        return self.inner.locked()
+
+
+def _rk_order(aes, inv):
+    return [inv.get(bytes(k), "unknown-key:" + bytes(k).hex()[:12]) for k in list(aes._ROUND_KEY_CACHE.keys())]
+
+
+def run_lru_conc(pre, keys, sched, lines=False, tail=None):
+    """the real `_get_round_keys`: the history `pre` sequentially, then thread t performs the calls keys[t]
+    (a key id or a list of key ids) under `sched` (then everything drains), then the calls `tail` sequentially.
+    Returns dict(trace, results, problems): the oracle compares every result with the pristine single-threaded one."""
+    aes = _aesmod()
+    pool, _bad = _keys_pool()
+    inv = {v: k for k, v in pool.items()}
+    alone = keys_alone()
+    per_thread = [list(k) if isinstance(k, (list, tuple)) else [k] for k in keys]
+    saved = list(aes._ROUND_KEY_CACHE.items())
+    aes._ROUND_KEY_CACHE.clear()
+    problems, trace = [], []
+    try:
+        for kid in pre:
+            got = _norm_rk(lib_call(aes._get_round_keys, pool[kid]))
+            if got != alone[kid]:
+                problems.append(f"sequential history: _get_round_keys(key #{kid}) gives {_show_rk(got)}, alone {_show_rk(alone[kid])}")
+        order0 = _rk_order(aes, inv)
+        ctl = CallCtl(aes, "_get_round_keys", [[(pool[kid],) for kid in ks] for ks in per_thread], gates=["_expand_key"], lines=lines)
+        try:
+            ctl.start()
+            for t in sched:
+                st = ctl.turn(t)
+                trace.append([t, st.split(":")[0] if isinstance(st, str) else st, _rk_order(aes, inv)])
+            ctl.drain(problems)
+        except Stuck as e:
+            problems.append("stuck: " + str(e))
+        alive = ctl.finish()
+        if alive:
+            problems.append(f"threads {alive} never finished")
+        results = []
+        for t, ks in enumerate(per_thread):
+            outs = [_norm_rk(o) for o in ctl.results[t]]
+            results.append(outs)
+            for i, kid in enumerate(ks):
+                got = outs[i] if i < len(outs) else ["missing", "no result"]
+                if got != alone[kid]:
+                    problems.append(f"thread {t}: _get_round_keys(bytes.fromhex('{pool[kid].hex()}')) [key #{kid}] returned {_show_rk(got)}; "
+                                    f"single-threaded in a fresh process it returns {_show_rk(alone[kid])}")
+        for kid in (tail if tail is not None else sorted({k for ks in per_thread for k in ks})):
+            got = _norm_rk(lib_call(aes._get_round_keys, pool[kid]))
+            if got != alone[kid]:
+                problems.append(f"after the threads: _get_round_keys(key #{kid}) gives {_show_rk(got)}, alone {_show_rk(alone[kid])}")
+        return {"trace": trace, "results": results, "order0": order0, "problems": problems, "all_done": ctl.all_done()}
+    finally:
+        aes._ROUND_KEY_CACHE.clear()
+        aes._ROUND_KEY_CACHE.update(saved)
+
+
+def _lru_conc_violation(pre, keys, sched, lines, r):
+    pool, _ = _keys_pool()
+    return Violation("cache.round-keys-depend-on-concurrent-use",
+                     f"round-key cache: after the sequential history of keys {pre}, threads asking for keys {keys} under the "
+                     f"{'line' if lines else 'region'}-granularity schedule {sched}: " + "; ".join(r["problems"][:3]),
+                     {"kind": "lru-conc", "pre": list(pre), "keys": [list(k) if isinstance(k, (list, tuple)) else k for k in keys],
+                      "schedule": list(sched), "lines": lines})
+
+
+def _interleavings(counts):
+    """all interleavings of threads where thread t takes counts[t] turns"""
+    if not any(counts):
+        yield []
+        return
+    for t, c in enumerate(counts):
+        if c:
+            rest = list(counts)
+            rest[t] -= 1
+            for tail in _interleavings(rest):
+                yield [t] + tail
+
+
+def corr_lru_conc(ctx):
+    """`_get_round_keys` called by 2 and 3 real threads at the granularity of the model (pause before each locked
+    region and at the entry of `_expand_key`): every interleaving for two threads over all kinds of key pairs (same
+    uncached key, different keys, cached, failing, evicting), random ones for three; per turn: where the thread stands
+    afterwards and the order of the cache; at the end: every result against the pristine single-threaded one."""
+    aes = _aesmod()
+    broken, violations = [], []
+    cap = aes._ROUND_KEY_CACHE_MAX
+    bad = _keys_pool()[1]
+    cases = []
+    # (pre-history, keys of the threads): uncached same key / uncached different / one cached / both cached / failing /
+    # full cache (every miss evicts) / the most recently used key of the history requested again
+    configs = [([], [0, 0]), ([1], [0, 0]), ([1], [0, 2]), ([0], [0, 1]), ([0, 1], [0, 1]), ([0], [0, 0]), ([1], [7, 0]), ([], [7, 7]),
+               ([1, 2, 3, 4], [0, 0]), ([1, 2, 3, 4], [0, 5]), ([1, 2, 3, 4], [1, 0]), ([0, 1, 2, 3, 4], [0, 0]), ([0, 1], [1, 0]), ([0, 1], [0, 0])]
+    for pre, keys in configs:
+        for sched in _interleavings([3, 3]):
+            cases.append((pre, keys, sched))
+    if not ctx.thorough:
+        fixed = [c for c in cases if c[0] in ([1], [1, 2, 3, 4]) and c[1] == [0, 0]]
+        rest = [c for c in cases if c not in fixed]
+        cases = fixed + ctx.rng.sample(rest, 110)
+    for _ in range(ctx.n(40, 600)):
+        k = 3
+        pre = [ctx.rng.randrange(7) for _ in range(ctx.rng.randrange(0, 6))]
+        keys = [ctx.rng.choice((0, 0, 1, 2, 5, 7)) for _ in range(k)]
+        sched = [ctx.rng.randrange(k) for _ in range(ctx.rng.randrange(3, 10))]
+        cases.append((pre, keys, sched))
+    outs = ctx.drive([{"op": "c15.lru_conc", "cap": cap, "pre": pre, "keys": keys, "sched": sched, "bad": bad} for pre, keys, sched in cases])
+    nbad = 0
+    for (pre, keys, sched), mo in zip(cases, outs):
+        if "drv_error" in mo:
+            broken.append(Broken("correspondence", "driver", mo["drv_error"], case={"pre": pre, "keys": keys, "sched": sched}))
+            continue
+        r = run_lru_conc(pre, keys, sched)
+        ctx.case(("lru-conc", tuple(pre), tuple(keys), tuple(sched)), nontrivial=True)
+        ctx.count(f"lru-conc/k={len(keys)}/" + ("same-key" if len(set(keys)) < len(keys) else "distinct-keys"))
+        if r["problems"] and not violations:
+            violations.append(_lru_conc_violation(pre, keys, sched, False, r))
+        real_res = [("err" if o and o[0][0] != "ok" else "ok") if o else None for o in r["results"]]
+        model_res = [None if x is None else ("ok" if isinstance(x, int) else x) for x in mo["results"]]
+        diff = None
+        if r["order0"] != mo["order0"]:
+            diff = f"cache order after the sequential history: real {r['order0']} model {mo['order0']}"
+        elif r["trace"] != mo["trace"]:
+            i = next((i for i, (a, b) in enumerate(zip(r["trace"], mo["trace"])) if a != b), min(len(r["trace"]), len(mo["trace"])))
+            diff = f"turn {i}: real {r['trace'][i] if i < len(r['trace']) else None} model {mo['trace'][i] if i < len(mo['trace']) else None}"
+        elif mo["allDone"] and real_res != model_res:
+            diff = f"results real {real_res} model {model_res}"
+        if diff:
+            nbad += 1
+            if nbad <= 5:
+                broken.append(Broken("correspondence", "c15.lru_conc", diff, case={"pre": pre, "keys": keys, "sched": sched}))
+    ctx.coverage["lru_conc_cases"] = len(cases)
+    ctx.coverage["lru_conc_mismatches"] = nbad
+    return broken, violations
+
+
+def lru_line_schedules(ctx, n, thorough=False):
+    """(pre, keys per thread, schedule) at LINE granularity, preemption-bounded: A runs i steps, B runs j steps (or
+    all its calls), then everything drains.  B may perform several calls (misses that evict A's key)."""
+    out = []
+    two = [([1], [0, 0]), ([], [0, 0]), ([0], [0, 1]), ([1, 2, 3, 4], [0, 0]), ([1, 2, 3, 4], [0, 5]), ([0, 1], [1, 0]), ([1], [7, 7])]
+    for pre, keys in two:
+        for i in range(1, n + 1):
+            for j in (range(1, n + 1) if thorough else (2, n // 2, 2 * n)):      # B stops early / half way / runs to its end
+                out.append((pre, keys, [0] * i + [1] * j))
+    # a hit of A overtaken by a burst of misses of B (B alone fills / turns over the whole cache)
+    for pre, keys in [([0], [[0], [1, 2, 3, 4]]), ([0, 1, 2, 3], [[0], [4, 5, 6, 1]]), ([0, 1, 2, 3], [[3, 0], [4, 5, 6, 2]])]:
+        for i in range(1, n + 1):
+            out.append((pre, keys, [0] * i + [1] * (6 * n)))
+    return out
+
+
+def oracle_lru_lines(ctx, budget_s):
+    """always-on, model-free: real threads in `_get_round_keys` paused before every source line as well"""
+    t0 = time.time()
+    aes = _aesmod()
+    pool, _ = _keys_pool()
+    aes_saved = list(aes._ROUND_KEY_CACHE.items())
+    aes._ROUND_KEY_CACHE.clear()
+    try:
+        probe = CallCtl(aes, "_get_round_keys", [[(pool[0],)]], gates=["_expand_key"], lines=True)
+        n = 0
+        try:
+            probe.start()
+            while not probe.all_done() and n < 64:
+                probe.turn(0)
+                n += 1
+        except Stuck:
+            pass
+        probe.finish()
+    finally:
+        aes._ROUND_KEY_CACHE.clear()
+        aes._ROUND_KEY_CACHE.update(aes_saved)
+    ctx.coverage["round_keys_steps_line_granularity"] = n
+    for pre, keys, sched in lru_line_schedules(ctx, max(n, 4), ctx.thorough):
+        if time.time() - t0 > budget_s:
+            ctx.notes.append("line-granularity exploration of _get_round_keys stopped by its time budget")
+            break
+        r = run_lru_conc(pre, keys, sched, lines=True)
+        ctx.case(("lru-lines", tuple(pre), repr(keys), tuple(sched)), nontrivial=True)
+        ctx.count("lru-lines/k=2")
+        if r["problems"]:
+            return [_lru_conc_violation(pre, keys, sched, True, r)]
+    return []
 
 
 # =============================================================================================
@@ -962,9 +1533,87 @@ def build_pdfs(wd, aes_state):
             shutil.copyfile(c, p)
             enc = "none" if alg is None else ("rc4" if alg.startswith("RC4") else ("aesV4" if alg == "AES-128" else "aesV5"))
             out[name] = {"path": p, "enc": enc, "emptyPw": user == ""}
+        # documents whose extraction goes through the shared caches with DIFFERENT entries:
+        #  * a second AES-128 document (three pages of text: more than _ROUND_KEY_CACHE_MAX per-object keys),
+        #  * PDFs whose embedded CID TrueType fonts (digit glyphs mapped to U+0000, repaired from the glyph outlines)
+        #    are members of the collision family: equal length, identical table directory, different contents
+        fam = collision_family()
+        extra = [("aesV4b", "aes", None)] + [("font-" + m, "font", fam[m]) for m in ("base", "layout", "glyf", "head-upem")]
+        for name, kind, font in extra:
+            p = os.path.join(wd.docs, f"gen_{name}.pdf")
+            tag = hashlib.sha1((font or b"three-pages-v1")).hexdigest()[:10]
+            c = os.path.join(cache, f"{tag}-{pypdf.__version__}-{name}.pdf")
+            if not (os.path.exists(c) and os.path.getsize(c) > 500):
+                if kind == "aes":
+                    aes.patch_pypdf_fallback_aes()
+                    data = make_text_pdf([f"BRAVO page {i} of three, figures {i * 1234567}" for i in (1, 2, 3)], "AES-128")
+                else:
+                    data = make_font_pdf(font)
+                tmp = c + f".{os.getpid()}.tmp"
+                with open(tmp, "wb") as fh:
+                    fh.write(data)
+                os.replace(tmp, c)
+            shutil.copyfile(c, p)
+            out[name] = {"path": p, "enc": "aesV4" if kind == "aes" else "none", "emptyPw": True}
     finally:
         aes_state.reset()
     return out
+
+
+def make_text_pdf(page_texts, algorithm=None):
+    """pages of Helvetica text written with pypdf, optionally encrypted with an empty user password"""
+    from pypdf import PdfWriter
+    from pypdf.generic import DecodedStreamObject, DictionaryObject, NameObject
+    N = NameObject
+    w = PdfWriter()
+    for text in page_texts:
+        page = w.add_blank_page(612, 792)
+        font = DictionaryObject({N("/Type"): N("/Font"), N("/Subtype"): N("/Type1"), N("/BaseFont"): N("/Helvetica")})
+        page[N("/Resources")] = DictionaryObject({N("/Font"): DictionaryObject({N("/F1"): w._add_object(font)})})
+        stream = DecodedStreamObject()
+        stream.set_data(f"BT /F1 12 Tf 72 720 Td ({text}) Tj ET".encode("ascii"))
+        page[N("/Contents")] = w._add_object(stream)
+    if algorithm:
+        w.encrypt(user_password="", owner_password="owner", algorithm=algorithm)
+    buf = io.BytesIO()
+    w.write(buf)
+    return buf.getvalue()
+
+
+def make_font_pdf(ttf):
+    """one page showing 'N:' and the glyphs 1, 2, 3 of an embedded CID TrueType font whose ToUnicode map sends these
+    glyphs to U+0000 — the case the library repairs by measuring the glyph outlines of the embedded font program"""
+    from pypdf import PdfWriter
+    from pypdf.generic import ArrayObject, DecodedStreamObject, DictionaryObject, NameObject, NumberObject, TextStringObject
+    N = NameObject
+    w = PdfWriter()
+    page = w.add_blank_page(612, 792)
+    ff = DecodedStreamObject()
+    ff.set_data(ttf)
+    desc = DictionaryObject({
+        N("/Type"): N("/FontDescriptor"), N("/FontName"): N("/AAAAAA+Synth"), N("/Flags"): NumberObject(4),
+        N("/FontBBox"): ArrayObject([NumberObject(v) for v in (0, 0, 1100, 1500)]), N("/ItalicAngle"): NumberObject(0),
+        N("/Ascent"): NumberObject(1500), N("/Descent"): NumberObject(0), N("/CapHeight"): NumberObject(1500),
+        N("/StemV"): NumberObject(80), N("/FontFile2"): w._add_object(ff)})
+    cid = DictionaryObject({
+        N("/Type"): N("/Font"), N("/Subtype"): N("/CIDFontType2"), N("/BaseFont"): N("/AAAAAA+Synth"),
+        N("/CIDSystemInfo"): DictionaryObject({N("/Registry"): TextStringObject("Adobe"), N("/Ordering"): TextStringObject("Identity"),
+                                               N("/Supplement"): NumberObject(0)}),
+        N("/FontDescriptor"): w._add_object(desc), N("/CIDToGIDMap"): N("/Identity"), N("/DW"): NumberObject(1000)})
+    tou = DecodedStreamObject()
+    tou.set_data(b"/CIDInit /ProcSet findresource begin\n12 dict begin\nbegincmap\n/CMapName /Adobe-Identity-UCS def\n/CMapType 2 def\n"
+                 b"1 begincodespacerange\n<0000> <FFFF>\nendcodespacerange\n5 beginbfchar\n<0001> <0000>\n<0002> <0000>\n<0003> <0000>\n"
+                 b"<0004> <004E>\n<0005> <003A>\nendbfchar\nendcmap\nCMapName currentdict /CMap defineresource pop\nend\nend\n")
+    font = DictionaryObject({
+        N("/Type"): N("/Font"), N("/Subtype"): N("/Type0"), N("/BaseFont"): N("/AAAAAA+Synth"), N("/Encoding"): N("/Identity-H"),
+        N("/DescendantFonts"): ArrayObject([w._add_object(cid)]), N("/ToUnicode"): w._add_object(tou)})
+    page[N("/Resources")] = DictionaryObject({N("/Font"): DictionaryObject({N("/F1"): w._add_object(font)})})
+    content = DecodedStreamObject()
+    content.set_data(b"BT /F1 12 Tf 72 720 Td <00040005000100020003> Tj ET")
+    page[N("/Contents")] = w._add_object(content)
+    buf = io.BytesIO()
+    w.write(buf)
+    return buf.getvalue()
 
 
 def extract_kind(path):
@@ -1102,6 +1751,221 @@ def isolated_digest(path, timeout=120):
     os.close(r)
     os.waitpid(pid, 0)
     return b"".join(chunks).decode() or "CHILD-NO-OUTPUT"
+
+
+def isolated_sequence(paths, timeout=120):
+    """digests of the documents extracted one after the other in a forked child of this process (nothing extracted
+    before): the experiment 'a fresh process extracts exactly this sequence'"""
+    r, w = os.pipe()
+    pid = os.fork()
+    if pid == 0:
+        try:
+            os.close(r)
+            signal.alarm(timeout)
+            os.write(w, json.dumps([extract_digest(p) for p in paths]).encode())
+        except BaseException as e:  # noqa: BLE001
+            try:
+                os.write(w, json.dumps(["CHILD-CRASH:" + type(e).__name__] * len(paths)).encode())
+            except Exception:
+                pass
+        finally:
+            os._exit(0)
+    os.close(w)
+    chunks = []
+    while True:
+        b = os.read(r, 65536)
+        if not b:
+            break
+        chunks.append(b)
+    os.close(r)
+    os.waitpid(pid, 0)
+    try:
+        return json.loads(b"".join(chunks).decode())
+    except ValueError:
+        return ["CHILD-NO-OUTPUT"] * len(paths)
+
+
+def paired_sequences(names):
+    """sequences that are always run from a fresh process: every ordered pair (and one triple a,b,a) of documents
+    that go through the same shared cache with different entries (collision-family fonts; AES-128 documents)"""
+    fonts = sorted(n for n in names if n.startswith("gen/gen_font-"))
+    aes = sorted(n for n in names if n in ("gen/gen_aesV4.pdf", "gen/gen_aesV4b.pdf", "gen/gen_rc4.pdf"))
+    seqs = [[a, b] for a in fonts for b in fonts if a != b] + [[a, b] for a in aes for b in aes if a != b]
+    if len(fonts) >= 2:
+        seqs.append([fonts[0], fonts[1], fonts[0]])
+    return seqs
+
+
+def check_fresh_sequence(by_name, seq, baseline=None):
+    base = baseline or {n: isolated_digest(by_name[n]) for n in set(seq)}
+    got = isolated_sequence([by_name[n] for n in seq])
+    for i, (n, d) in enumerate(zip(seq, got)):
+        if d != base[n]:
+            return False, (f"a fresh process that extracts {seq[:i + 1]} in this order gets digest {d} for {n}; "
+                           f"a fresh process that extracts {n} alone gets {base[n]}")
+    return True, "every document of the sequence has the digest it has alone in a fresh process"
+
+
+def oracle_fresh_sequences(ctx, st):
+    """judges the sequences that _baseline() ran in forked children while this process had not extracted anything"""
+    for seq, ok, what in st.get("fresh_sequences", []):
+        ctx.case(("fresh-seq", tuple(seq)), nontrivial=True)
+        ctx.count("fresh-process-sequence/len=%d" % len(seq))
+        if not ok:
+            return [Violation("sequence.result-depends-on-history", what, {"kind": "sequence-fresh", "seq": seq})]
+    return []
+
+
+# ---- a thread held inside a cache fill while another thread extracts a whole document ---------------------
+def cache_fill_gates():
+    """[(module, function)]: the module-level functions CALLED by the functions that touch a declared cache cell
+    (`_expand_key` under `_get_round_keys`, the table readers under `_ttf_parse_font`, ...), from the current source"""
+    import ast
+    out = []
+    for modname, cell in sorted(DECLARED_CACHES):
+        mod = importlib.import_module(modname)
+        try:
+            with open(mod.__file__, encoding="utf-8") as fh:
+                tree = ast.parse(fh.read())
+        except (OSError, SyntaxError):
+            continue
+        top = {n.name for n in tree.body if isinstance(n, ast.FunctionDef)}
+        for f in tree.body:
+            if isinstance(f, ast.FunctionDef) and any(isinstance(n, ast.Name) and n.id == cell for n in ast.walk(f)):
+                for c in ast.walk(f):
+                    if isinstance(c, ast.Call) and isinstance(c.func, ast.Name) and c.func.id in top and c.func.id != f.name:
+                        if (mod, c.func.id) not in out:
+                            out.append((mod, c.func.id))
+    return out
+
+
+def clear_declared_caches():
+    """empties the declared transparent caches so that the next extraction takes the fill path again"""
+    for modname, cell in DECLARED_CACHES:
+        c = getattr(sys.modules.get(modname), cell, None)
+        if hasattr(c, "clear"):
+            c.clear()
+
+
+def run_gated_pair(by_name, gate_mod, gate_name, a, b, where):
+    """thread T1 extracts document a and is held at its first entry into (where='entry') / return from (where='exit')
+    gate_mod.gate_name; while it is held, thread T2 extracts document b completely; then T1 finishes.
+    Returns (hit, digest of a, digest of b, note)."""
+    hit = threading.Event()
+    t2_done = threading.Event()
+    used = []
+    orig = getattr(gate_mod, gate_name)
+    t1_ident = []
+
+    def hold():
+        if threading.get_ident() in t1_ident and not used:
+            used.append(1)
+            hit.set()
+            t2_done.wait(6)
+
+    def gated(*a_, **kw):
+        if where == "entry":
+            hold()
+        try:
+            return orig(*a_, **kw)
+        finally:
+            if where == "exit":
+                hold()
+    gated.__wrapped__ = orig
+    res = {}
+    clear_declared_caches()
+
+    def run1():
+        t1_ident.append(threading.get_ident())
+        try:
+            res["a"] = extract_digest(by_name[a])
+        finally:
+            hit.set()
+
+    def run2():
+        hit.wait(60)
+        try:
+            if used:
+                res["b"] = extract_digest(by_name[b])
+        finally:
+            t2_done.set()
+    setattr(gate_mod, gate_name, gated)
+    try:
+        t1 = threading.Thread(target=run1, daemon=True)
+        t2 = threading.Thread(target=run2, daemon=True)
+        t1.start()
+        t2.start()
+        t1.join(120)
+        t2.join(120)
+    finally:
+        setattr(gate_mod, gate_name, orig)
+    note = "" if not (t1.is_alive() or t2.is_alive()) else "a thread did not finish"
+    return bool(used), res.get("a"), res.get("b"), note
+
+
+def gated_candidates(names):
+    return sorted(n for n in names if n.startswith("gen/gen_font-") or n in ("gen/gen_aesV4.pdf", "gen/gen_aesV4b.pdf"))
+
+
+def check_gated(by_name, baseline, gate, a, b, where):
+    gate_mod = importlib.import_module(gate[0])
+    hit, da, db, note = run_gated_pair(by_name, gate_mod, gate[1], a, b, where)
+    if not hit:
+        return True, "gate not reached", False
+    probs = []
+    if note:
+        probs.append(note)
+    if da != baseline[a]:
+        probs.append(f"thread T1 (held at the {where} of {gate[1]} while T2 worked) extracted {a} with digest {da}, alone in a fresh process {baseline[a]}")
+    if db != baseline[b]:
+        probs.append(f"thread T2 extracted {b} with digest {db} while T1 (extracting {a}) was held at the {where} of {gate[1]}; alone in a fresh process {baseline[b]}")
+    for n in sorted({a, b}):
+        d = extract_digest(by_name[n])
+        if d != baseline[n]:
+            probs.append(f"afterwards {n} extracts with digest {d}, alone in a fresh process {baseline[n]}")
+    return (not probs), "; ".join(probs) or "both threads and the extractions afterwards equal the isolated results", True
+
+
+def oracle_gated_docs(ctx, st, budget_s):
+    """always-on, model-free, whole extractions: for every function under a declared cache (cache_fill_gates) and every
+    generated document that reaches it, T1 is held at the entry / at the exit of the function while T2 extracts the same
+    and a sibling document; both results and the extractions afterwards must equal the isolated baseline."""
+    t0 = time.time()
+    by_name, baseline = dict(st["docs"]), st["baseline"]
+    cands = gated_candidates([n for n, _ in st["docs"]])
+    sib = {}
+    for grp in ([n for n in cands if "font-" in n], [n for n in cands if "aes" in n]):
+        for i, n in enumerate(grp):
+            sib[n] = grp[(i + 1) % len(grp)] if len(grp) > 1 else n
+    gates = cache_fill_gates()
+    ctx.coverage["cache_fill_gates"] = [g for _m, g in gates]
+    n_hit = 0
+    for mod, g in gates:
+        reached_by_none = True
+        for a in cands:
+            for where in ("entry", "exit"):
+                for b in (a, sib[a]):
+                    if time.time() - t0 > budget_s:
+                        ctx.notes.append("gated whole-document exploration stopped by its time budget")
+                        ctx.coverage["gated_runs_hit"] = n_hit
+                        return []
+                    ok, what, hit = check_gated(by_name, baseline, (mod.__name__, g), a, b, where)
+                    if not hit:
+                        break
+                    reached_by_none = False
+                    n_hit += 1
+                    ctx.case(("gated", g, a, b, where), nontrivial=True)
+                    ctx.count("gated/" + g)
+                    if not ok:
+                        return [Violation("threads.result-depends-on-concurrent-work", what,
+                                          {"kind": "gated", "gate": [mod.__name__, g], "a": a, "b": b, "where": where})]
+                else:
+                    continue
+                break
+        if reached_by_none:
+            ctx.count("gated/unreached/" + g)
+    ctx.coverage["gated_runs_hit"] = n_hit
+    return []
 
 
 def _preimport():
@@ -1462,6 +2326,8 @@ def _baseline(ctx, st):
         docs = [(n, p) for n, p in docs if n not in unstable]
         baseline = {n: d for n, d in baseline.items() if n not in unstable}
     st["docs"], st["baseline"] = docs, baseline
+    by_name = dict(docs)
+    st["fresh_sequences"] = [(seq,) + check_fresh_sequence(by_name, seq, baseline) for seq in paired_sequences([n for n, _ in docs])]
     ctx.coverage["baseline_docs"] = len(docs)
     ctx.coverage["baseline_failing_docs"] = sum(1 for d in baseline.values() if d.startswith("ERR"))
     ctx.coverage["baseline_s"] = round(time.time() - t0, 2)
@@ -1479,14 +2345,24 @@ def model_free_oracles(ctx, st):
     tempfile.tempdir = wd.tmp
     try:
         _baseline(ctx, st)
-        t1 = time.time()
-        violations += oracle_lines(ctx, ctx.n(18, 90))
-        ctx.coverage["lines_oracle_s"] = round(time.time() - t1, 2)
-        violations += corr_lru_decorated(ctx)
-        violations += oracle_early_exit(ctx, st)
-        t2 = time.time()
-        violations += seq_oracle(ctx, wd, st["docs"], st["baseline"], aes_state)
-        ctx.coverage["sequences_threads_s"] = round(time.time() - t2, 2)
+        def lines_budget():
+            # quick tier: the exhaustive 'A runs i steps, B runs j steps' sweep needs ~10 s on an idle machine; it runs last
+            # and gets what is left of the 60 s of the tier (at least 6 s) — on a loaded machine it stops early and says so
+            return 90 if ctx.thorough else max(6.0, min(18.0, 50.0 - (time.time() - ctx.t0)))
+        parts = [("oracle:line-granularity _get_round_keys", lambda: oracle_lru_lines(ctx, ctx.n(4, 60))),
+                 ("oracle:fresh-process sequences", lambda: oracle_fresh_sequences(ctx, st)),
+                 ("oracle:lru_cache sites", lambda: corr_lru_decorated(ctx)),
+                 ("oracle:early exit", lambda: oracle_early_exit(ctx, st)),
+                 ("oracle:gated documents", lambda: oracle_gated_docs(ctx, st, ctx.n(6, 60))),
+                 ("oracle:sequences and threads", lambda: seq_oracle(ctx, wd, st["docs"], st["baseline"], aes_state)),
+                 ("oracle:line-granularity sections", lambda: oracle_lines(ctx, lines_budget()))]
+        for name, part in parts:
+            t1 = time.time()
+            v, b = guarded(name, part)
+            ctx.coverage[name.split(":", 1)[1].replace(" ", "_") + "_s"] = round(time.time() - t1, 2)
+            violations += v or []
+            if b is not None:
+                st.setdefault("oracle_broken", []).append(b)
         st["oracles_ran"] = True
     finally:
         tempfile.tempdir = old_tmp
@@ -1503,25 +2379,32 @@ def correspondence(ctx):
     tempfile.tempdir = wd.tmp
     try:
         _baseline(ctx, st)          # first: nothing has been extracted in this process yet
+        # one pristine interpreter answers all single-call references (round keys and font analyses) of this run
+        st["font_cases"] = _font_histories(ctx, ctx.n(40, 500))
+        _alone([("key", k) for k in _keys_pool()[0]] + [("font", f, tuple(g)) for calls in st["font_cases"] for f, g in calls]
+               + [("font", f, ()) for f in _fonts()])
         t1 = time.time()
-        broken += corr_patch(ctx)
+        res, b = guarded("c15.patch_run", corr_patch, ctx)
+        broken += (res or []) + ([b] if b else [])
         ctx.coverage["patch_s"] = round(time.time() - t1, 2)
         t1 = time.time()
-        for part in (corr_lru, corr_font):
-            b, v = part(ctx)
-            broken += b
-            violations += v
-        b, v = corr_aes(ctx, pdfs, aes_state)
-        broken += b
-        violations += v
-        b, v = corr_temp(ctx, wd)
-        broken += b
-        violations += v
+        for name, part in (("c15.lru", lambda: corr_lru(ctx)), ("c15.lru_conc", lambda: corr_lru_conc(ctx)), ("c15.font", lambda: corr_font(ctx)),
+                           ("c15.aes", lambda: corr_aes(ctx, pdfs, aes_state)), ("c15.temp", lambda: corr_temp(ctx, wd))):
+            t2 = time.time()
+            res, b = guarded(name, part)
+            ctx.coverage[name.replace(".", "_") + "_s"] = round(time.time() - t2, 2)
+            if b is not None:
+                broken.append(b)
+            else:
+                broken += res[0]
+                violations += res[1]
         ctx.coverage["caches_aes_temp_s"] = round(time.time() - t1, 2)
         ctx.sample({"baseline": dict(list(st["baseline"].items())[:4])})
     finally:
         tempfile.tempdir = old_tmp
+        aes_state.reset()
     violations += model_free_oracles(ctx, st)
+    broken += st.pop("oracle_broken", [])
     return {"broken": broken, "violations": violations}
 
 
@@ -1558,6 +2441,10 @@ def search(ctx, broken):
     # 0. the model-independent oracles of correspondence() if it could not run (driver not built)
     if not st.get("oracles_ran"):
         found += model_free_oracles(ctx, st)
+    # 0b. the round-key cache under concurrent use, model-free: every region-granularity interleaving of two threads over
+    #     all kinds of key pairs, then line granularity (cheap, always)
+    if not any(v.key == "cache.round-keys-depend-on-concurrent-use" for v in found):
+        found += search_lru_conc(ctx, budget_s=ctx.n(25, 120))
     # 1. font cache histories (cheap, always)
     hist = [[(0, [0]), (0, [1, 2])], [(1, [5]), (1, [0, 1])], [(0, []), (0, [0, 1, 2, 3])], [(2, [1]), (2, [2])]] + _font_histories(ctx, 40)
     font_alone([c for calls in hist for c in calls])
@@ -1587,36 +2474,79 @@ def search(ctx, broken):
     return found
 
 
+def search_lru_conc(ctx, budget_s):
+    t0 = time.time()
+    configs = [([], [0, 0]), ([1], [0, 0]), ([1], [0, 2]), ([0], [0, 1]), ([0, 1], [0, 1]), ([0], [0, 0]), ([1], [7, 0]), ([], [7, 7]),
+               ([1, 2, 3, 4], [0, 0]), ([1, 2, 3, 4], [0, 5]), ([1, 2, 3, 4], [1, 0]), ([0, 1, 2, 3, 4], [0, 0]), ([0, 1], [1, 0]), ([0, 1], [0, 0])]
+    for pre, keys in configs:
+        for sched in _interleavings([3, 3]):
+            r = run_lru_conc(pre, keys, sched)
+            ctx.case(("oracle-lru-conc", tuple(pre), tuple(keys), tuple(sched)))
+            if r["problems"]:
+                return [_lru_conc_violation(pre, keys, sched, False, r)]
+        if time.time() - t0 > budget_s:
+            return []
+    for pre, keys, sched in lru_line_schedules(ctx, 14, True):
+        r = run_lru_conc(pre, keys, sched, lines=True)
+        ctx.case(("oracle-lru-lines", tuple(pre), repr(keys), tuple(sched)))
+        if r["problems"]:
+            return [_lru_conc_violation(pre, keys, sched, True, r)]
+        if time.time() - t0 > budget_s:
+            break
+    return []
+
+
 def check_lru_history(keys):
     aes = importlib.import_module("sharepoint2text.parsing.extractors.pdf._pypdf_aes_fallback")
     pool, bad = _keys_pool()
     saved = list(aes._ROUND_KEY_CACHE.items())
     aes._ROUND_KEY_CACHE.clear()
     try:
+        alone = keys_alone()
         for i, kid in enumerate(keys):
             key = pool[kid]
-            try:
-                got = ("ok", aes._get_round_keys(key))
-            except ValueError:
-                got = ("err", None)
-            try:
-                want = ("ok", aes._expand_key(key))
-            except ValueError:
-                want = ("err", None)
-            if got != want:
-                return False, f"_get_round_keys(key #{kid}) after history {keys[:i]} differs from _expand_key"
-            if len(aes._ROUND_KEY_CACHE) > aes._ROUND_KEY_CACHE_MAX:
-                return True, "cache exceeds its bound (not a C15 matter)"
-        return True, "transparent"
+            got = _norm_rk(lib_call(aes._get_round_keys, key))
+            if got != alone[kid]:
+                return False, (f"_get_round_keys(bytes.fromhex('{key.hex()}')) [key #{kid}] after the history of keys {keys[:i]} gives "
+                               f"{_show_rk(got)}, alone in a fresh process {_show_rk(alone[kid])}")
+        return True, "every call equals its isolated result"
     finally:
         aes._ROUND_KEY_CACHE.clear()
         aes._ROUND_KEY_CACHE.update(saved)
 
 
 def replay(ctx, payload):
+    """an exception out of the library during a replay is a failing replay, not a crash"""
+    try:
+        return _replay(ctx, payload)
+    except Infra:
+        raise
+    except Exception as e:  # noqa: BLE001
+        if not _from_library(e.__traceback__):
+            raise
+        return False, f"the library raised {type(e).__name__}: {e}"
+
+
+def _replay(ctx, payload):
     rp = payload.get("replay", payload)
     kind = rp.get("kind")
     st = _setup(ctx)
+    if kind == "lru-conc":
+        r = run_lru_conc(rp["pre"], rp["keys"], rp["schedule"], lines=rp.get("lines", False))
+        return (not r["problems"]), ("; ".join(r["problems"][:3]) or f"every thread got the single-threaded key schedule (results {[[o[0] for o in rs] for rs in r['results']]})")
+    if kind in ("sequence-fresh", "gated"):
+        wd = st["wd"]
+        old_tmp = tempfile.tempdir
+        tempfile.tempdir = wd.tmp
+        try:
+            by = {"gen/" + os.path.basename(d["path"]): d["path"] for d in st["pdfs"].values()}
+            if kind == "sequence-fresh":
+                return check_fresh_sequence(by, rp["seq"])
+            base = {n: isolated_digest(by[n]) for n in {rp["a"], rp["b"]}}
+            ok, what, hit = check_gated(by, base, tuple(rp["gate"]), rp["a"], rp["b"], rp["where"])
+            return ok, what
+        finally:
+            tempfile.tempdir = old_tmp
     if kind == "interleaving":
         ok, what, res = check_interleaving(rp["k"], rp["schedule"], rp.get("raises"), phase=rp.get("phase", False),
                                            lines=rp.get("lines", False))
@@ -1659,6 +2589,12 @@ def replay(ctx, payload):
             if kind == "threads":
                 work = rp["work"]
                 base = {n: isolated_digest(by[n]) for w in work for n in w if n in by}
+                snap = GlobalSnapshot(wd)
+                for w in work:          # warm-up as in the run: lazily imported modules are not state changes
+                    for n in w:
+                        if n in by:
+                            extract_digest(by[n])
+                s0 = snap.take()
                 for attempt in range(20):
                     res = [[] for _ in work]
 
@@ -1677,7 +2613,10 @@ def replay(ctx, payload):
                     bad = [(n, d) for r in res for n, d in r if d != base[n]]
                     if bad:
                         return False, f"{bad[0][0]}: {bad[0][1]} vs isolated {base[bad[0][0]]} (attempt {attempt})"
-                return True, "20 attempts: all digests equal the isolated ones"
+                    df = snap.diff(s0, snap.take())
+                    if df:
+                        return False, "after the concurrent workload process-global state differs: " + "; ".join(f"{k}: {v[0]} -> {v[1]}" for k, v in sorted(df.items())[:6])
+                return True, "20 attempts: all digests equal the isolated ones, global state restored"
             if kind == "early-exit":
                 st["docs"] = [(n, p) for n, p in docs if n == rp["doc"]]
                 v = oracle_early_exit(ctx, st)
